@@ -133,6 +133,13 @@ pub fn run_program_rep(user_text: &str, cycles: u32, mem: &[(u64, u8)], extra_fi
         _ => None,
     };
     let contents = FileContents::new_from_data(hk::y86_preamble(), user_text, "t.hcl");
+    let mut memf = String::from("(mem");
+    for (a, b) in mem { write!(memf, " ({} {})", a, b).unwrap(); }
+    memf.push(')');
+    match &sexp {
+        Some(s) => crate::watch::note(format!("(prog {} {} (cycles {}) {} {} (stmts {}))", flags_sexp(), cls_sexp(user_text), cycles, memf, extra_fields, s)),
+        None => crate::watch::note_text("prog", user_text),
+    }
     let (mut result, accepted, acts) = run_once(&contents, cycles, mem);
     let mut schedules: Vec<String> = vec![acts];
     for _ in 1..repeats {
@@ -145,9 +152,6 @@ pub fn run_program_rep(user_text: &str, cycles: u32, mem: &[(u64, u8)], extra_fi
         if !schedules.contains(&a2) { schedules.push(a2); }
     }
     let request = sexp.map(|s| {
-        let mut memf = String::from("(mem");
-        for (a, b) in mem { write!(memf, " ({} {})", a, b).unwrap(); }
-        memf.push(')');
         format!("(prog {} {} (cycles {}) {} {} (nsched {}) {} (stmts {}))", flags_sexp(), cls_sexp(user_text), cycles, memf,
                 extra_fields, schedules.len(), schedules.join(" "), s)
     });
@@ -163,6 +167,16 @@ pub fn run_to_end(user_text: &str, timeout: u32, mem: &[(u64, u8)], extra_fields
     let full = format!("{}{}", hk::y86_preamble(), user_text);
     let sexp = match catch_unwind(|| hk::parse_statements(&full)) { Ok(Ok(s)) => Some(s), _ => None };
     let contents = FileContents::new_from_data(hk::y86_preamble(), user_text, "t.hcl");
+    let request = sexp.map(|s| {
+        let mut memf = String::from("(mem");
+        for (a, b) in mem { write!(memf, " ({} {})", a, b).unwrap(); }
+        memf.push(')');
+        format!("(run {} {} (timeout {}) {} {} (stmts {}))", flags_sexp(), cls_sexp(user_text), timeout, memf, extra_fields, s)
+    });
+    match &request {
+        Some(r) => crate::watch::note(r.clone()),
+        None => crate::watch::note_text("run", user_text),
+    }
     let result = catch_unwind(AssertUnwindSafe(|| {
         match parse_y86_hcl(&contents) {
             Err(e) => format!("rej {}", diag_string(&hk::error_summary(&e))),
@@ -199,11 +213,5 @@ pub fn run_to_end(user_text: &str, timeout: u32, mem: &[(u64, u8)], extra_fields
     }));
     let result = match result { Ok(r) => r, Err(_) => String::from("PANIC") };
     let accepted = result.starts_with("run");
-    let request = sexp.map(|s| {
-        let mut memf = String::from("(mem");
-        for (a, b) in mem { write!(memf, " ({} {})", a, b).unwrap(); }
-        memf.push(')');
-        format!("(run {} {} (timeout {}) {} {} (stmts {}))", flags_sexp(), cls_sexp(user_text), timeout, memf, extra_fields, s)
-    });
     ProgOutcome { request, result, accepted }
 }
